@@ -119,7 +119,7 @@ def compat_2d(ctx, su, sv, dim):
 # ------------------------------------------------------------------------------------------------
 KINDS = {'curve': dict(cls='Curve', deg=[2], sizes=[3], dim=2),
          'surface': dict(cls='Surface', deg=[1, 2], sizes=[2, 3], dim=3),
-         'volume': dict(cls='Volume', deg=[1, 1, 1], sizes=[2, 2, 2], dim=3)}
+         'volume': dict(cls='Volume', deg=[1, 1, 1], sizes=[2, 3, 4], dim=3)}       # pairwise different sizes: a swapped size shows
 VIEWS = ('P', 'W', 'Pw')
 
 
@@ -155,6 +155,11 @@ def _read_views(ctx, tag, obj, kind, P, W):
     ctx.check_eq_grid(tag + '.ctrlpts', got_p, P)
     ctx.check_eq_vec(tag + '.weights', got_w, W)
     ctx.check_eq_grid(tag + '.ctrlptsw', got_pw, spec.weighted(P, W))
+    # the net keeps its shape through every setter
+    names = ('ctrlpts_size_u', 'ctrlpts_size_v', 'ctrlpts_size_w')
+    got_sizes = [obj.ctrlpts_size] if kind == 'curve' else [getattr(obj, nm) for nm in names[:len(KINDS[kind]['sizes'])]]
+    ctx.check_true(tag + '.net_sizes', list(got_sizes) == list(KINDS[kind]['sizes']),
+                   'control net sizes read %r, expected %r' % (list(got_sizes), KINDS[kind]['sizes']))
     if kind == 'surface':
         su, sv = KINDS[kind]['sizes']
         c2d = obj.ctrlpts2d
@@ -473,12 +478,15 @@ def weight_scaling(ctx, kind, deg, mult):
 def _grids(tier):
     out = [dict(nu=a, nv=b, weights='list') for a in range(2, 5) for b in range(2, 5)]
     out += [dict(nu=2, nv=3, weights='default'), dict(nu=3, nv=2, weights='scalar')]
+    # the weights are (re)assigned after the grid was read: the weighted view must follow
+    out += [dict(nu=2, nv=3, weights='list', reweight=True), dict(nu=3, nv=3, weights='default', reweight=True),
+            dict(nu=3, nv=2, weights='scalar', reweight=True)]
     return out
 
 
 @scenario('C09', fns=['CPGen.GridWeighted.grid', 'CPGen.GridWeighted.weight', 'CPGen.Grid.generate'],
           quick=lambda: _grids('quick'))
-def grid_weighted(ctx, nu, nv, weights):
+def grid_weighted(ctx, nu, nv, weights, reweight=False):
     """requires: grid of nu x nv points (generate(nu-1, nv-1)) on a symbolic sx x sy rectangle at height z,
                  weights > 0 (list of nu*nv symbols | not set | one number for all)
        ensures : grid[i][j] = (x_i*w_k, y_j*w_k, z*w_k, w_k) with x_i = i*sx/(nu-1), y_j = j*sy/(nv-1) and
@@ -506,3 +514,17 @@ def grid_weighted(ctx, nu, nv, weights):
             x = sx * ctx.lit(Fraction(i, nu - 1))
             y = sy * ctx.lit(Fraction(j, nv - 1))
             ctx.check_eq_vec('grid[%d][%d]=own_weight' % (i, j), grid[i][j], [x * w, y * w, z * w, w])
+    if reweight:
+        seen = [[list(p) for p in r] for r in grid]
+        V = shapes.weights(ctx, 'v', n)
+        g.weight = list(V)
+        grid2 = g.grid
+        ctx.check_eq_vec('reweighted.weights_vector', g.weight, V)
+        for i in range(nu):
+            for j in range(nv):
+                w = V[j + i * nv]
+                x = sx * ctx.lit(Fraction(i, nu - 1))
+                y = sy * ctx.lit(Fraction(j, nv - 1))
+                ctx.check_eq_vec('reweighted.grid[%d][%d]=own_weight' % (i, j), grid2[i][j], [x * w, y * w, z * w, w])
+        # what the caller read before the edit is its own data
+        ctx.check_eq_grid('reweighted.earlier_result_untouched', [p for r in grid for p in r], [p for r in seen for p in r])
